@@ -52,17 +52,40 @@ def shrink(req):
                 yield "\t".join(f[:k] + ["|".join(parts[:i] + [cand] + parts[i + 1:])] + f[k + 1:])
 
 
+def search(ctx):
+    """small systematic macro programs: every pair of definitions from a template list x every site"""
+    defs = [
+        "D ~ A ~ 1", "D ~ A ~ A", "D ~ A ~ B", "D ~ A ~ B ( A )", "D ~ A ~ B ( 1 ) ( 2 )", "D ~ A ~ P ## Q",
+        "D ~ B ~ A", "D ~ B ( X ) ~ X", "D ~ B ( X ) ~ A", "D ~ B ( X ) ~ X ## 1", "D ~ B ( X ) ~ B ( X )",
+        "D ~ B ( X , Y ) ~ Y ~ X", "D ~ B ( ) ~ A", "D ~ B ( X ) ~ X ~ B",
+    ]
+    sites = ["T A", "T B", "T B ( A )", "T B ( 1 , 2 )", "T B ( ( 1 , 2 ) )", "T B ( )", "T A ( 1 )", "T B ( B ( A ) )",
+             "T B ~ ( 1 ) ( 2 )", "T A ~ B ( A ) ~ A"]
+    out = []
+    for d1 in defs:
+        for d2 in defs:
+            if d1 == d2:
+                continue
+            for s in sites:
+                out.append("C12.run\t-\tmain|%s|%s|%s" % (d1, d2, s))
+                if d1.startswith("D ~ A ~ ") and "(" not in d1.split("~")[1]:
+                    out.append("C12.run\tA %s\tmain|%s|%s" % (d1[len("D ~ A ~ "):], d2, s))
+    return out[:4000]
+
+
 SPEC = {
     "id": "C12",
     "gens": ["MacroTables"],
     "lean_modules": ["RsslVerif.Thm.C12"],
     "theorems": [T + n for n in [
         "source_shape", "expand_terminates", "object_like_is_substitution", "function_like_is_substitution",
-        "define_undef_scoping", "api_duplicates_break_scoping", "include_is_paste", "pragma_once_once"]],
+        "define_undef_scoping", "api_duplicates_break_scoping", "api_defines_equal_file_defines_partial",
+        "api_defines_differ_from_file_defines", "expand_refines_spec_partial", "include_is_paste", "pragma_once_once"]],
     "harness": "c12",
     "nontrivial": nontrivial,
     "finding_key": finding_key,
     "shrink": shrink,
+    "search": search,
     "level_text": "Proof (partial): see notes/C12.md",
     "rule": "requests = (API define list, include graph of files given line by line as token lists); the harness renders the "
             "files, checks with the real lexer that every line lexes to exactly the request's tokens, runs the real "
